@@ -217,6 +217,55 @@ class Fn:
             out = list(t.get("succ", []))
         return out
 
+    def succ_threaded(self, b):
+        """successors with constant jump threading: when block b ends in `goto S`, S has no
+        statements and switches on a local that b assigns a constant to, only the matching target
+        is taken (this is what `matches!(..)` and short-circuit booleans compile to)."""
+        t = self.blocks[b]["term"]
+        if t["t"] == "goto":
+            S = t["to"]
+            sb = self.blocks[S]
+            st = sb["term"]
+            if st["t"] == "switch" and not sb["stmts"]:
+                l = op_local(st["o"])
+                val = None
+                for s in self.blocks[b]["stmts"]:
+                    if s["dst"] == [l]:
+                        k = None
+                        if s["rv"].get("r") == "use":
+                            k = op_const(s["rv"]["o"][0])
+                        val = k.get("v") if (k and "v" in k) else None
+                if val is not None:
+                    for v, tgt in st["targets"]:
+                        if v == val:
+                            return [S] if False else [("thread", S, tgt)]
+                    return [("thread", S, st["otherwise"])]
+        return self.succ(b)
+
+    def reachable_threaded(self, start, blocked=()):
+        """like reachable(), with constant jump threading across empty switch blocks"""
+        if isinstance(start, int):
+            start = [start]
+        seen = set()
+        st = [s for s in start if s not in blocked]
+        while st:
+            b = st.pop()
+            if b in seen:
+                continue
+            seen.add(b)
+            for s in self.succ_threaded(b):
+                if isinstance(s, tuple):
+                    _, via, tgt = s
+                    if via in blocked or tgt in blocked:
+                        continue
+                    if tgt not in seen:
+                        st.append(tgt)
+                    continue
+                if s in blocked or s in seen:
+                    continue
+                st.append(s)
+        return seen
+
     def preds(self):
         if self._pred is None:
             p = collections.defaultdict(list)
@@ -791,6 +840,35 @@ def adt_of_type(ty):
     return ty[:i] if i > 0 else ty
 
 
+STD_GENERIC_FIELDS = {
+    "std::result::Result": {"Ok": 0, "Err": 1},
+    "std::option::Option": {"Some": 0},
+    "std::ops::ControlFlow": {"Break": 0, "Continue": 1},
+}
+
+
+def split_generic_args(ty):
+    """`a::B<X<Y>, Z>` -> ["X<Y>", "Z"]"""
+    i = ty.find("<")
+    if i < 0 or not ty.endswith(">"):
+        return []
+    inner = ty[i + 1:-1]
+    out, depth, cur = [], 0, ""
+    for ch in inner:
+        if ch in "<([":
+            depth += 1
+        elif ch in ">)]":
+            depth -= 1
+        if ch == "," and depth == 0:
+            out.append(cur.strip())
+            cur = ""
+        else:
+            cur += ch
+    if cur.strip():
+        out.append(cur.strip())
+    return out
+
+
 def place_type(prog, f, place):
     """best-effort type string of a place (None when a generic field type is met)"""
     ty = f.locals[place[0]]
@@ -802,6 +880,14 @@ def place_type(prog, f, place):
             variant = pe[1:]
         elif isinstance(pe, str) and pe.startswith("."):
             name, _, adt = pe[1:].partition(":")
+            if adt in STD_GENERIC_FIELDS:
+                ga = split_generic_args(ty)
+                idx = STD_GENERIC_FIELDS[adt].get(variant)
+                variant = None
+                if idx is None or idx >= len(ga):
+                    return None
+                ty = ga[idx]
+                continue
             a = prog.adts.get(adt)
             if a is None:
                 return None
